@@ -129,8 +129,10 @@ def make_part_entry(entry):
         require(1 <= d_a)
         require(on_a + d_a + 1 <= 2 * bar)
         require(0 <= on_b <= 2 * bar - 2)
-        if entry in ("pretty", "unfold", "transpose", "transpose_list", "transpose_group", "slice"):
+        if entry in ("pretty", "unfold", "transpose", "transpose_list", "transpose_group", "slice", "pianoroll"):
             require(on_b == 0)  # heavy entry points: one position pinned
+        if entry == "pianoroll":
+            require(d_a == 2)  # the roll enumerates frames: one symbolic position left
         part = S.Part("P", quarter_duration=q)
         part.add(S.TimeSignature(4, 4), 0)
         part.add(S.KeySignature(-2, "minor"), 0)
@@ -285,7 +287,7 @@ def _cont(tier):
 
 def _entries(tier):
     q = ["note_array", "maps", "pretty", "save_score_midi", "transpose", "transpose_list", "transpose_group", "unfold", "slice"]
-    return [{"entry": e} for e in (q if tier == "quick" else ENTRY)]
+    return [{"entry": e} for e in (q if tier == "quick" else ENTRY) if e != "pianoroll"]  # pianoroll: own harness (models)
 
 
 MODELS = ["syminterp", "symdict", "symnp:partitura.score,partitura.utils.generic,partitura.utils.music,partitura.io.exportmidi",
@@ -302,6 +304,11 @@ HARNESSES = [
       bounds="one two-measure part (tie chain, grace note, second voice, rest, signatures, clef) with three symbolic "
              "positions; each entry point called twice; fingerprint of all points, links, objects and attributes",
       outside="save_musicxml / save_match (lxml, files), estimate_spelling/voices/key (numeric kernels), note arrays of scores"),
+    H("pianoroll_entry", make_part_entry, lambda tier: [{"entry": "pianoroll"}],
+      models=[m.replace("partitura.utils.music,", "partitura.utils.music!,") for m in MODELS], budget={"quick": 250, "thorough": 1200},
+      lazy_format=True, functions=["Part.note_array", "music.compute_pianoroll", "music._make_pianoroll"],
+      bounds="same part; compute_pianoroll on its note array, called twice (the roll's index buffers are object arrays: "
+             "symnp's zeros_object mode for utils.music)"),
     H("xml_entry", make_xml_entry, lambda tier: [{}], budget={"quick": 20, "thorough": 20}, core=False,
       vectors=[{"t_ped": 20, "closed": False}, {"t_ped": 0, "closed": True}, {"t_ped": 7, "closed": False}],
       functions=["exportmusicxml.save_musicxml (real lxml, concrete vectors only)"],
